@@ -146,6 +146,48 @@ def worker():
     json.dump(res, open(sys.argv[2], "w"), default=str)
 
 
+def trace_validation(chk, model, quick, sd):
+    """Code -> spec: random wiring / editing histories recorded from the real network, validated by TLC against Trace_Net.tla."""
+    import re
+    ntr, length = (64, 22) if quick else (1200, 30)
+    seeds = [sd * 100000 + 50000 + i for i in range(ntr)]
+    jobs = [{"model": model, "seeds": ch, "length": length, "layout": sorted(LAYOUTS)[(i + sd) % 2]}
+            for i, ch in enumerate(C.chunks(seeds, C.NCPU))]
+    outs = C.run_workers("trace_net", jobs, timeout=3000)
+    traces = [t for o in outs for t in o["traces"]]
+    tf = os.path.join(C.WORK, "traces_net.json")
+    json.dump(traces, open(tf, "w"))
+    cfg = os.path.join(C.SPEC, "Trace_Net.cfg")
+    res = C.run_tlc("Trace_Net", cfg, "trace_net", workers=C.NCPU, timeout=2400, env={"TRACE_FILE": tf})
+    if not res.ok:
+        raise C.MachineryError("trace validation failed to run:\n" + res.out[-2000:])
+    reached = Counter()
+    for line in res.printed("AT"):
+        m = re.match(r'<<"AT", (\d+), (\d+)>>', line)
+        reached[int(m.group(1))] = max(reached[int(m.group(1))], int(m.group(2)))
+    # binding demonstration: one corrupted field of one trace must be rejected at exactly that event
+    bad = json.loads(json.dumps(traces[:1]))
+    k = next(i for i, e in enumerate(bad[0]) if e["ok"] == 1 and e["after"]["w"])
+    bad[0][k]["after"]["w"][0] += 1
+    tf2 = os.path.join(C.WORK, "traces_net_corrupt.json")
+    json.dump(bad, open(tf2, "w"))
+    res2 = C.run_tlc("Trace_Net", cfg, "trace_net2", workers=2, timeout=600, env={"TRACE_FILE": tf2})
+    got = max([int(re.match(r'<<"AT", (\d+), (\d+)>>', l).group(2)) for l in res2.printed("AT")] + [0])
+    if got != k + 1:
+        raise C.MachineryError("a corrupted trace was matched up to event %d, expected rejection at event %d" % (got, k + 1))
+    nev = 0
+    for t, tr in enumerate(traces, start=1):
+        nev += len(tr)
+        if reached[t] != len(tr) + 1:
+            e = tr[reached[t] - 1]
+            chk.violation({"kind": "trace_rejected", "action": e["op"], "accepted_by_code": bool(e["ok"]),
+                           "view_kind": (e.get("ev") or {}).get("kind")},
+                          {"trace_seed": seeds[t - 1], "event_index": reached[t], "event": {k_: v_ for k_, v_ in e.items() if k_ != "after"},
+                           "history": [{k_: v_ for k_, v_ in x.items() if k_ != "after"} for x in tr[:reached[t]]],
+                           "logged_after": e["after"], "logged_before": tr[reached[t] - 2]["after"] if reached[t] >= 2 else None})
+    return len(traces), nev
+
+
 def main(which):
     chk = C.Check(which, "model_checking")
     quick = C.tier() == "quick"
@@ -209,6 +251,9 @@ def main(which):
             if m["kind"] in ("recorded_synaptic_rows", "raised"):
                 sig["clamp_calls"] = min(m.get("clamps", 0), 2)
             chk.violation(sig, m)
+    ntraces = nevents = 0
+    if which == "C09":
+        ntraces, nevents = trace_validation(chk, model, quick, sd)
     prev = None
     evp = os.path.join(C.EVID, which + ".json")
     if which in ("C08", "C10") and os.environ.get("VERIF_MERGE_EVIDENCE") == "1" and os.path.exists(evp):
@@ -216,8 +261,11 @@ def main(which):
     chk.set("weight_edit_histories_by_route", dict(routes))
     chk.set("states", states + (prev["coverage"].get("states", 0) if prev else 0))
     chk.set("transitions", trans + (prev["coverage"].get("transitions", 0) if prev else 0))
-    chk.set("traces_validated_against_impl", n + (prev["coverage"].get("traces_validated_against_impl", 0) if prev else 0))
+    chk.set("traces_validated_against_impl", n + ntraces + (prev["coverage"].get("traces_validated_against_impl", 0) if prev else 0))
     chk.set("network_histories_replayed", n)
+    if ntraces:
+        chk.set("recorded_traces_validated_by_tlc", ntraces)
+        chk.set("recorded_trace_events", nevents)
     chk.set("ops_in_sampled_histories", dict(ops))
     chk.set("exhaustive", True)
     chk.set("evaluations", n)
